@@ -1,0 +1,24 @@
+//go:build verif
+// +build verif
+
+package pixiechain
+
+import (
+	"encoding/json"
+
+	ecommon "github.com/ethereum/go-ethereum/common"
+	"github.com/polynetwork/poly/native/service/header_sync/eth"
+)
+
+// VerifVerifyMerkleProof runs the unexported proof check against a header that commits to the given state root
+// (verification harness, build tag verif).
+func VerifVerifyMerkleProof(proofJSON []byte, root ecommon.Hash, contractAddr []byte) ([]byte, error) {
+	p := new(Proof)
+	if err := json.Unmarshal(proofJSON, p); err != nil {
+		return nil, err
+	}
+	return verifyMerkleProof(p, &eth.Header{Root: root}, contractAddr)
+}
+
+// VerifCheckProofResult exposes checkProofResult.
+func VerifCheckProofResult(result, value []byte) bool { return checkProofResult(result, value) }
